@@ -118,7 +118,7 @@ mod stdlib_rel {
     use vp_circ::{
         e2::{Op, OpRel, OpVisitor},
         e6::{self, Fix, ALL_FIX},
-        ops_ecc, ops_hash, ops_native,
+        ops_ecc, ops_foreign, ops_hash, ops_native,
     };
     use vpcore::{CaseResult, Failure, Prop, SplitMix, Verdict};
 
@@ -235,12 +235,13 @@ mod stdlib_rel {
         );
         // catalogue operations as relations: key generation without witness, real proof, verification
         let mut items = vec![];
-        for (cat, which) in [("native", 0), ("ecc", 1), ("hash", 2)] {
+        for (cat, which) in [("native", 0), ("ecc", 1), ("hash", 2), ("foreign", 3)] {
             let mut c = Collect { catalogue: cat, items: vec![] };
             match which {
                 0 => ops_native::visit_ops(&mut c, quick, seed),
                 1 => ops_ecc::visit_ops(&mut c, quick, seed),
-                _ => ops_hash::visit_ops(&mut c, quick, seed),
+                2 => ops_hash::visit_ops(&mut c, quick, seed),
+                _ => ops_foreign::visit_ops(&mut c, quick, seed),
             }
             items.extend(c.items);
         }
@@ -252,7 +253,7 @@ mod stdlib_rel {
         }
         p.enumerate(
             "stdlib.catalogue-ops",
-            "sampled operations of the native / ECC / hash catalogues as standard-library relations: setup_vk (no witness), setup_pk, prove, verify with the reference instance; for Poseidon-transcript cases an edited instance must be refused; every case non-trivial",
+            "sampled operations of the native / foreign-field / ECC / hash catalogues as standard-library relations: setup_vk (no witness), setup_pk, prove, verify with the reference instance; for Poseidon-transcript cases an edited instance must be refused; every case non-trivial",
             items,
             8,
             false,
@@ -261,6 +262,7 @@ mod stdlib_rel {
                 match item.catalogue.as_str() {
                     "native" => ops_native::visit_ops(&mut r, quick, seed),
                     "ecc" => ops_ecc::visit_ops(&mut r, quick, seed),
+                    "foreign" => ops_foreign::visit_ops(&mut r, quick, seed),
                     _ => ops_hash::visit_ops(&mut r, quick, seed),
                 }
                 r.result.unwrap_or_else(|| Err(Failure::new("harness:op-not-found-in-catalogue", item.op.clone())))
